@@ -7,9 +7,10 @@ from claims import NOT_APPLICABLE, HOOKS, NOTES
 
 VERIF = os.path.dirname(os.path.dirname(os.path.abspath(__file__)))
 props = [json.loads(l)["id"] for l in open(os.path.join(VERIF, "properties.jsonl"))]
+enabled = set(open(os.path.join(VERIF, "lib", "enabled.txt")).read().split())
 checks, na = [], []
 for pid in props:
-    if pid in CHECKS and pid in CLAIMS:
+    if pid in CHECKS and pid in CLAIMS and pid in enabled:
         c = CLAIMS[pid]
         checks.append({
             "property_id": pid,
